@@ -7,22 +7,27 @@
 package kex
 
 //@ func kex.DHSession.SetParameter
+//@   params s xB _
 //@   props C10(sweep)
 //@   sweep bounds,panic,make,nilmem,div
 
 //@ func kex.ECDHSession.SetParameter
+//@   params s xB _
 //@   props C10(sweep)
 //@   sweep bounds,panic,make,nilmem,div
 
 //@ func kex.ECDHSession.UnmarshalCBOR
+//@   params s data
 //@   props C10(sweep)
 //@   sweep bounds,panic,make,nilmem,div
 
 //@ func kex.OAEPSession.SetParameter
+//@   params s xB ownerKey
 //@   props C10(sweep)
 //@   sweep bounds,panic,make,nilmem,div
 
 //@ func kex.ecdhSharedSecret
+//@   params key paramA paramB
 //@   props C10(sweep)
 //@   sweep bounds,panic,make,nilmem,div
 
